@@ -4,9 +4,12 @@ import os, sys
 sys.path.insert(0, os.path.dirname(os.path.dirname(os.path.abspath(__file__))))
 from engine import equivfuzz
 ids = [a for a in sys.argv[1:] if a.startswith("C")] or [f"C{i:02d}" for i in range(1, 21)]
+kinds = equivfuzz.MUTATORS
+if "--kinds" in sys.argv:
+    kinds = tuple(sys.argv[sys.argv.index("--kinds") + 1].split(","))
 tot = bad = 0
 for pid in ids:
-    r = equivfuzz.run_for(pid)
+    r = equivfuzz.run_for(pid, kinds=kinds)
     tot += r["mutants"]; bad += len(r["failed"])
     print(pid, r["mutants"], "mutants", r.get("by_kind"), len(r["failed"]), "failed")
     for f in r["failed"]:
